@@ -271,3 +271,41 @@ fault("C08.merge-context", "C08", G, "    def merge(self, other):\n        self.
 fault("C08.obj-swap", "C08", "parglare/actions.py", "instance._pg_end_position = context.end_position", "instance._pg_end_position = context.start_position", "R08.context-owner")
 benign("C08.b-positional-kw", "C08", P, "                    state=act.state,\n                    frontier=head.frontier + 1,\n                    token=head.token_ahead,", "                    act.state,\n                    head.frontier + 1,\n                    token=head.token_ahead,")
 benign("C08.b-inline-new-position", "C08", P, "                    position=new_position,\n                    start_position=head.position,\n                    end_position=new_position,", "                    position=head.position + len(head.token_ahead),\n                    start_position=head.position,\n                    end_position=head.position + len(head.token_ahead),")
+
+# ---------------------------------------------------------------- C13
+fault("C13.nopse-for-nops", "C13", GR, "                            assoc=assoc,\n                            nops=True,", "                            assoc=assoc,\n                            nopse=True,", "R13.expansion")
+fault("C13.no-nops", "C13", GR, "                            assoc=assoc,\n                            nops=True,\n", "                            assoc=assoc,\n", "R13.expansion")
+fault("C13.swap-x1-prods", "C13", GR, "                        Production(symbol, ProductionRHS([symbol, base_symbol]))\n                    )\n                    symbol.action_name = \"collect\"\n\n                productions.append(Production(symbol, ProductionRHS([base_symbol])))",
+      "                        Production(symbol, ProductionRHS([base_symbol]))\n                    )\n                    symbol.action_name = \"collect\"\n\n                productions.append(Production(symbol, ProductionRHS([symbol, base_symbol])))", "R13.expansion")
+fault("C13.sep-action", "C13", GR, "                    symbol.action_name = \"collect_sep\"", "                    symbol.action_name = \"collect\"", "R13.expansion")
+fault("C13.opt-greedy-wrong-prod", "C13", GR, "                    Production(symbol, ProductionRHS([base_symbol])),\n                    Production(symbol, ProductionRHS([EMPTY]), assoc=assoc),\n                ]\n            )\n\n            symbol.action_name = \"optional\"",
+      "                    Production(symbol, ProductionRHS([base_symbol]), assoc=assoc),\n                    Production(symbol, ProductionRHS([EMPTY])),\n                ]\n            )\n\n            symbol.action_name = \"optional\"", "R13.expansion")
+fault("C13.greedy-left", "C13", GR, "        assoc = ASSOC_RIGHT if symbol_ref.greedy else ASSOC_NONE", "        assoc = ASSOC_LEFT if symbol_ref.greedy else ASSOC_NONE", "R13.expansion")
+fault("C13.no-register-zero", "C13", GR, "                symbol.grammar_action = action\n\n                self.register_symbol(symbol)\n", "                symbol.grammar_action = action\n", "R13.expansion")
+fault("C13.name-no-greedy", "C13", GR, "            self.separator.name if self.separator else None,\n            self.greedy,\n        )", "            self.separator.name if self.separator else None,\n        )", "R13.name-key")
+fault("C13.name-elif-greedy", "C13", GR, '''        return "{}_{}{}{}".format(
+            symbol_name,
+            name_by_mult[multiplicity],
+            f"_{separator_name}" if separator_name else "",
+            "_g" if greedy else "",
+        )''', '''        suffix = name_by_mult[multiplicity]
+        if separator_name:
+            suffix += f"_{separator_name}"
+        elif greedy:
+            suffix += "_g"
+        return f"{symbol_name}_{suffix}"''', "R13.name-key")
+fault("C13.zero-name-no-greedy", "C13", GR, "                    separator.name if separator else None,\n                    symbol_ref.greedy,\n                )", "                    separator.name if separator else None,\n                )", "R13.expansion")
+fault("C13.op-plus-zero", "C13", GR, '        elif rep_op.startswith("+"):\n            symbol_ref.multiplicity = MULT_ONE_OR_MORE', '        elif rep_op.startswith("+"):\n            symbol_ref.multiplicity = MULT_ZERO_OR_MORE', "R13.op-map")
+fault("C13.op-greedy-startswith", "C13", GR, '        if rep_op.endswith("!"):', '        if rep_op.startswith("!"):', "R13.op-map")
+fault("C13.group-counter", "C13", GR, "            counter[name] += 1\n", "", "R13.groups")
+benign("C13.b-fstring-name", "C13", GR, '''        return "{}_{}{}{}".format(
+            symbol_name,
+            name_by_mult[multiplicity],
+            f"_{separator_name}" if separator_name else "",
+            "_g" if greedy else "",
+        )''', '''        suffix = name_by_mult[multiplicity]
+        if separator_name:
+            suffix += f"_{separator_name}"
+        if greedy:
+            suffix += "_g"
+        return f"{symbol_name}_{suffix}"''')
